@@ -1,10 +1,13 @@
 #!/bin/bash
-# Builds the E6 helper (procgrid) that check C05 makes the library run, and writes the (empty) overlay the driver
-# expects from a prebuild step. Run by ./vcheck before the test binary is built.
+# Builds the E6 helper (procgrid) that check C05 makes the library run, and regenerates (from /repo's working tree)
+# the instrumented copy of subprocess/monitoring.go: its `go` statement becomes a hooked spawn, so that the cells
+# "sched=monitor-late" can hold the monitoring goroutine back until the stop call has been made. Without a hook
+# installed the instrumented file behaves exactly like the original. Run by ./vcheck before the test binary is built.
 set -e
 here="$(dirname "$(readlink -f "$0")")"
 root="$(readlink -f "$here/../..")"
 export GOFLAGS=-mod=mod GOPROXY=off GOTOOLCHAIN=local
 mkdir -p "$root/.build/bin"
 ( cd "$root" && CGO_ENABLED=0 go1.26 build -o "$root/.build/bin/procgrid.tmp.$$" ./checks/c05/procgrid && mv -f "$root/.build/bin/procgrid.tmp.$$" "$root/.build/bin/procgrid" )
-echo '{"Replace": {}}' > "$root/.build/overlay-C05.json"
+( cd "$root" && go1.26 build -o .build/bin/instr-C05 ./engine/instr && \
+  VERIF_ROOT="$root" .build/bin/instr-C05 -id C05 -out "$root/.build/instr-C05" -chan subprocess/monitoring.go )
